@@ -5,6 +5,8 @@ import (
 	"fmt"
 	"io"
 	"log/slog"
+	"maps"
+	"slices"
 	"strconv"
 )
 
@@ -41,7 +43,9 @@ func (d checkstyleReport) MarshalXML(e *xml.Encoder, _ xml.StartElement) (err er
 	if err != nil {
 		return err
 	}
-	for dir, reports := range d {
+	// Files are listed in a stable order, the order of map keys changes from run to run.
+	for _, dir := range slices.Sorted(maps.Keys(d)) {
+		reports := d[dir]
 		if err = e.EncodeToken(
 			xml.StartElement{
 				Name: xml.Name{Local: "file"},
